@@ -159,10 +159,19 @@ def check_read_batch(ctx, path, spec, model_rows, rng, desc):
         arg = sel.copy()
     elif kind == "idx-unsorted-repeats":
         sel = rng.integers(0, N, size=int(rng.integers(1, 2 * N + 1)))
-        if rng.random() < 0.4:       # a permutation of a contiguous block
+        r_ = rng.random()
+        if r_ < 0.3:       # a permutation of a contiguous block
             a = int(rng.integers(0, N))
             b = int(rng.integers(a + 1, N + 1))
             sel = rng.permutation(np.arange(a, b))
+        elif r_ < 0.6 and N >= 4:
+            # "looks contiguous by its endpoints": first = min, last = max, span = len-1, middle shuffled
+            a = int(rng.integers(0, N - 3))
+            b = int(rng.integers(a + 4, N + 1))
+            mid = rng.permutation(np.arange(a + 1, b - 1))
+            while len(mid) > 1 and np.all(np.diff(mid) > 0):
+                mid = rng.permutation(mid)
+            sel = np.concatenate([[a], mid, [b - 1]])
         arg = sel.copy()
     else:
         sel, arg = None, int(rng.integers(1, N + 1))
